@@ -23,6 +23,8 @@ def run(chk, facts, tier):
     chk.rule('errors-reset', 'every value return of a handler, and every error_response call in any security manager function that holds the connection state, is the member error_response(code, output, out_size, state); that member resets the pairing state to idle', floor=9)
     chk.rule('stored-ea-is-of-this-pairing', 'the "central\'s DHKey check was received and stored" flag (remote_dhkey_check_received_, consulted when the user answers a numeric comparison) is cleared without condition in the function that '
              'enters lesc_pairing_random_exchanged, the only state in which it can be set: an Ea stored in an aborted pairing is never taken for the DHKey check of the next one', floor=2)
+    chk.rule('reply-size-defined', 'every pairing handler, dispatcher and error_response assigns the in/out reply size on every path (so that "anything else" is really answered with Pairing Failed or nothing, never with the unwritten buffer)', floor=14)
+    reply_size_defined(chk, facts, 'reply-size-defined', lambda fn: fn.q.startswith('bluetoe::details::') and 'security_manager' in fn.q and fn.name != 'l2cap_output' and not fn.name.endswith('l2cap_output'))
     chk.rule('srand-after-confirm', 'legacy_handle_pairing_random copies srand to the output and completes pairing only if c1(tk, mrand, p1, p2) == stored mconfirm', floor=1)
     chk.rule('dhkey-after-ea', 'the DHKey check Eb is written and lesc_pairing_completed() is called only behind the comparison of the computed Ea with the received one', floor=2)
     smo = facts.enum('bluetoe::details::sm_opcodes')
